@@ -3,3 +3,5 @@
 package jen
 
 func verifHook(point string, f *File, arg string) {}
+
+func verifHookObj(point string, f *File, a, b interface{}) {}
